@@ -403,6 +403,14 @@ def case_compiler(idx, rng, tier, res):
         except Exception as exc:
             b = ('raised', type(exc).__name__, str(exc)[:100])
         res.count('elements_compared')
+        if tdir and k > tcall:
+            # neither the long-lived nor a brand-new compiler may still see the user's template directory
+            for which, summ in (('the same compiler', a), ('a fresh compiler', b)):
+                if isinstance(summ, dict) and any('CUSTOM HEADER of a user template' in (v[-1] or '')
+                                                  for v in summ.values()):
+                    res.violation('template_option_leaks', 'a compile() call without dstTemplate on %s still renders the '
+                                  'custom template of an earlier call' % which, replay={'backend': backend},
+                                  component='compiler')
         if a != b:
             diff = [kk for kk in set(a) | set(b) if isinstance(a, dict) and isinstance(b, dict) and a.get(kk) != b.get(kk)]
             detail = ''
